@@ -169,6 +169,10 @@ theorem exec_bo_frame {s s' : State} {op : Op} (h : exec s op = .ok s')
   case advance => injection h with h; subst h; rfl
   case trading => injection h with h; subst h; rfl
   case setChainAliases => injection h with h; subst h; rfl
+  case transferRollapp => obtain ⟨r, _, _, _, rfl⟩ := transferRollapp_ok h; rfl
+  case migrateChainIds => obtain ⟨rfl, _, _⟩ := migrateChainIds_ok h; rfl
+  case updateAliases => obtain ⟨ca, rfl, _⟩ := updateAliases_ok h; rfl
+  case setParams => obtain ⟨rfl, _⟩ := setParams_ok h; rfl
   case register a n dur pay c =>
     unfold registerName at h
     mcases' h
